@@ -13,20 +13,23 @@
      Whole function for 0-3 listed nodes / runs of up to 4 nodes + induction steps of every loop (loop rule L-snapshot with its side
      condition "the iterated list is not written by the body" as an obligation; lists are iterated LIVE as CPython does).
 [F]  the same three rewrites evaluated natively on the enumerated shapes (exact comparison of sequence(unwrapped=True) per wire).
+[P]  StabilizerTableau.__init__ / CliffordTableau.__init__ (contracts/tableau_ctor.py): the stored table / phase / iphase buffers hold
+     the given values and are FRESH (no argument buffer is kept or written), for int- and float-dtype arguments, [x, z] lists, tableau
+     sources: the in-place row helpers of every later call can then not reach an array the caller still holds.
 [B-only] that an unchanged gate sequence compiles to the same state (C01 + C20), copy, assign_noise(empty map), solver .solve() frames,
      interleavings.
 """
 from __future__ import annotations
 
 from pyvc.driver import run_tasks, merge
-from contracts import frames as F, metrics as M, compile_loop as CL, dag_rewrites as RW, metrics_emit as ME
+from contracts import frames as F, metrics as M, compile_loop as CL, dag_rewrites as RW, metrics_emit as ME, tableau_ctor as TCT
 
 
 def deductive(tier="quick", seed=0):
     d = run_tasks(M.count_tasks() + F.noisy_gates_tasks() + F.mc_noisy_gates_tasks() + CL.tasks() + F.trs_tasks()
-                  + F.assign_noise_tasks() + M.dispatch_tasks() + RW.tasks() + ME.tasks())
+                  + F.assign_noise_tasks() + M.dispatch_tasks() + RW.tasks() + ME.tasks() + TCT.tasks())
     d.obligations.extend(RW.wire_lemmas() + RW.native_cross_check())
-    can = run_tasks(F.canary_tasks() + M.frame_canary_tasks() + RW.canary_tasks())
+    can = run_tasks(F.canary_tasks() + M.frame_canary_tasks() + RW.canary_tasks() + TCT.canary_tasks())
     d.errors.extend(can.errors)
     d.canaries = M.canary_summary(can)
     d.inlined = sorted(M.INLINE | CL.CS.INLINE | RW.INLINE)
